@@ -450,3 +450,59 @@ func indexLoopOver(info *types.Info, fs *ast.ForStmt, s types.Object) bool {
 	post, ok := fs.Post.(*ast.IncDecStmt)
 	return ok && post.Tok == token.INC && rootIdent(info, post.X) == iv
 }
+
+// indexLoopVar recognises `for i := 0; i < len(<slice>); i++ {…}` where isSlice accepts the sliced expression (the
+// bound may also be a local assigned only from len(<slice>)), and returns i. The body must not assign i.
+func indexLoopVar(f *Func, fs *ast.ForStmt, isSlice func(ast.Expr) bool) types.Object {
+	info := f.Info()
+	init, ok := fs.Init.(*ast.AssignStmt)
+	if !ok || len(init.Lhs) != 1 || len(init.Rhs) != 1 || fs.Cond == nil {
+		return nil
+	}
+	iv := rootIdent(info, init.Lhs[0])
+	if tv := info.Types[init.Rhs[0]]; iv == nil || tv.Value == nil || tv.Value.ExactString() != "0" {
+		return nil
+	}
+	cond, ok := ast.Unparen(fs.Cond).(*ast.BinaryExpr)
+	if !ok || cond.Op != token.LSS || rootIdent(info, cond.X) != iv {
+		return nil
+	}
+	isLen := func(e ast.Expr) bool {
+		lc, ok := ast.Unparen(e).(*ast.CallExpr)
+		return ok && resolveCallee(info, lc).Builtin == "len" && len(lc.Args) == 1 && isSlice(lc.Args[0])
+	}
+	if !isLen(cond.Y) {
+		id, isId := ast.Unparen(cond.Y).(*ast.Ident)
+		if !isId || info.ObjectOf(id) == nil {
+			return nil
+		}
+		all, n := assignedOnlyFrom(f, info.ObjectOf(id), func(r ast.Expr, idx, cnt int) bool { return isLen(r) })
+		if !all || n == 0 {
+			return nil
+		}
+	}
+	post, ok := fs.Post.(*ast.IncDecStmt)
+	if !ok || post.Tok != token.INC || rootIdent(info, post.X) != iv {
+		return nil
+	}
+	clean := true
+	ast.Inspect(fs.Body, func(n ast.Node) bool {
+		switch x := n.(type) {
+		case *ast.AssignStmt:
+			for _, l := range x.Lhs {
+				if id, ok := ast.Unparen(l).(*ast.Ident); ok && info.ObjectOf(id) == iv {
+					clean = false
+				}
+			}
+		case *ast.IncDecStmt:
+			if id, ok := ast.Unparen(x.X).(*ast.Ident); ok && info.ObjectOf(id) == iv {
+				clean = false
+			}
+		}
+		return true
+	})
+	if !clean {
+		return nil
+	}
+	return iv
+}
